@@ -165,6 +165,20 @@ def stream_sql_and_e2e(ck, model_ok, tm=None):
                 else:
                     results[k] = {"exec_err": r.get("exec_err", json.dumps(r)[:200])}
         tm['exec_' + dialect] = round(time.time() - _t, 1)
+        if ck.thorough:
+            # second engine: the harness' bundled SQLite (rusqlite) on the statements it can run (no POW / FLOOR)
+            ks = [k for k in todo if isinstance(results.get(k), list) and "POW(" not in comp[k][0] and "FLOOR(" not in comp[k][0]]
+            ks = ks[:: max(1, len(ks) // 600)]
+            res2 = M.run_queries_harness(setup, ["SELECT %s AS v FROM t" % comp[k][0] for k in ks])
+            for k, r2 in zip(ks, res2):
+                ck.count("engine2", dialect + "|" + srcs[k])
+                if "rows" not in r2:
+                    ck.violation("second SQLite engine cannot run %r: %s" % (comp[k][0], json.dumps(r2)[:200]), {"stream": "engine2", "sql": comp[k][0], "answer": r2})
+                    continue
+                a = [M.obs_val(row[0]) for row in r2["rows"]]
+                b = [M.obs_val(x) for x in results[k]]
+                if a != b:
+                    ck.violation("the two SQLite engines disagree on %r" % comp[k][0], {"stream": "engine2", "sql": comp[k][0]})
         _t = time.time()
         for k in todo:
             label, t, ridx = cases[k]
@@ -263,3 +277,22 @@ def stream_directed(ck):
         if " false " in sql.lower() or sql.lower().startswith("select false"):
             ck.disagreement("two spellings of one instant compared by text at compile time: %s" % sql,
                             {"stream": "directed", "src": src, "sql": sql, "kinds": ["timestamp-literal-eq"]}, lambda c: F["F17"])
+    # findings that live in tables / non-executable dialects: confirm the recorded emission
+    for key, target, want in (("N3", "sql.sqlite", "a REGEXP b < c"), ("N4", "sql.bigquery", "(a + b * 180 / PI())")):
+        f = [x for x in ck.findings if x["id"] == F[key]]
+        if not f:
+            continue
+        src = f[0]["replay"]["src"]
+        a = harness("compile", [{"src": src, "target": target, "format": False, "sig": False}])[0]
+        ck.count("directed", src)
+        if "ok" in a and want in a["ok"]:
+            ck.disagreement("recorded mis-parenthesised emission reproduced: %s" % a["ok"],
+                            {"stream": "directed", "src": src, "sql": a["ok"]}, lambda c, k=key: F[k])
+    try:
+        from ..translate import gen_doc_prec
+        rows = gen_doc_prec.extract()["rows"]
+        if not any("~=" in sp for _, sp, _, _ in rows):
+            ck.count("directed", "doc:~=")
+            ck.disagreement("the book's precedence table does not list `~=`", {"stream": "directed", "doc": gen_doc_prec.DOC, "operator": "~="}, lambda c: F["N1"])
+    except Exception:
+        pass
